@@ -11,6 +11,10 @@ INVARIANT C15a_DofCountsWeighted
 INVARIANT C15a_NormalPosDef
 INVARIANT C15a_NoBetterNeighbour
 INVARIANT C15a_ZeroWeightIgnored
+INVARIANT C15a_HomogeneousInB
+INVARIANT C15a_HomogeneousInS
+INVARIANT C15a_HomogeneousInA
+INVARIANT C15a_ModelShift
 INVARIANT C15b_ScatterSymmetric
 INVARIANT C15b_ScatterCauchySchwarz
 INVARIANT C15b_ScatterShiftInvariant
